@@ -789,6 +789,17 @@ func (in *Interp) slice(fr *frame, instr *ssa.Slice, x, lo, hi, max value) value
 		if x == nil {
 			return []value(nil)
 		}
+		if h > Len {
+			// re-slicing into spare capacity: memory the host append left nil is zero natively
+			if st, ok := under(instr.Type()).(*types.Slice); ok {
+				full := x[:h]
+				for i := Len; i < h; i++ {
+					if full[i] == nil {
+						full[i] = in.zero(st.Elem())
+					}
+				}
+			}
+		}
 		return x[l:h:m]
 	case *value:
 		a := (*x).(array)
